@@ -8,6 +8,10 @@ import sys
 
 HERE = os.path.dirname(os.path.dirname(os.path.abspath(__file__)))
 BEGIN, END = "<!-- seeded-table:begin -->", "<!-- seeded-table:end -->"
+OUTSIDE = {"C17-min-max-as-fmin-fmax": "**outside the claim**: NaN operands of `min`/`max` are not documented (assumed away, listed in the evidence)",
+           "C03-scalar-fast-path-keeps-float32": "**missed** (documented: dtypes other than float64 are outside the model)",
+           "C05-very-keeps-caller-dtype": "**missed** (documented: dtypes other than float64 are outside the model)",
+           "C15-repr-float-fifteen-digits": "**missed** (documented: digit-level rendering is outside the model)"}
 THOROUGH_ONLY = {"C11-sigmoid-reciprocal-height-log-zero": "thorough tier only, and only on an idle machine (`Sigmoid/F/finite/exact`, a query of about 10 min; under load it ends inconclusive, which the check reports as such)"}
 
 
@@ -32,7 +36,10 @@ def main():
         if len(needs) > 230:
             needs = needs[:227] + "..."
         rc, nv, ob = res.get(sid, (None, 0, None))
-        if rc == 1 and ob:
+        if sid in OUTSIDE and rc != 1:
+            caught = OUTSIDE[sid]
+            missed.append(sid)
+        elif rc == 1 and ob:
             caught = f"`{ob}`"
         elif sid in THOROUGH_ONLY:
             caught = THOROUGH_ONLY[sid]
